@@ -82,6 +82,13 @@ def cases(ctx):
         for body in range(3):
             for ki in (2, 3):
                 yield ("bec2", oi, body, ki)
+    # the component list may hold the SAME object several times, or distinct objects with identical content: every position is an
+    # entry of its own (own address, entry MAC chained from its own 1-based index)
+    for pattern in ("AA", "ABA", "AAB", "ABAB", "ABCA", "AAA"):
+        for same in ("same-object", "equal-copies"):
+            for enc in (False, True):
+                for framing in ("bf3", "bec2"):
+                    yield ("repeat", pattern, same, enc, framing)
     # histories on ONE live Bf3File: every serialisation must be the layout of the object's CURRENT content
     from itertools import product as _product
     depth = 4 if ctx.quick else 5
@@ -215,6 +222,28 @@ def run_case(ctx, case):
     o = Outcome("layout-ok", True)
     if kind == "hist":
         return run_history(ctx, o, case[1:])
+    if kind == "repeat":
+        _, pattern, same, enc, framing = case
+        models = {ch: {"tags": [(0xC1, bytes([i]))], "content": shapes.payload(ctx, "c03-rep-%s" % ch, 17 + i, 0), "declared": 17 + i, "enc": enc}
+                  for i, ch in enumerate("ABC")}
+        objs = {ch: shapes.mk_component(m) for ch, m in models.items()}
+        real = [objs[ch] if same == "same-object" else shapes.mk_component(models[ch]) for ch in pattern]
+        comps = [models[ch] for ch in pattern]
+        key = key_of(ctx, 3)
+        f = Bf3File({}, real)
+        what = "components %s (%s)" % (pattern, same)
+        if framing == "bf3":
+            check_binary(o, f.to_binary(5, key), comps, 5, key, "Bf3File.to_binary, " + what)
+            return o
+        ckey = ctx.sym("c03-rep-ckey")
+        bec = Bec2File(f, [InitCustKeyAuthBlock()], key)
+        got = bec.to_binary([SoftwareCustKeyEncryptor(ckey)])
+        try:
+            hb, hlen = AB.parse_header(got)
+        except Exception as e:
+            return o.viol("layout|bec2-header", "BEC2 header does not parse: %r" % e)
+        check_binary(o, got[hlen:], comps, hlen, key, "Bec2File.to_binary, " + what)
+        return o
     if kind == "core":
         _, ln, z, enc = case
         comps = [{"tags": TAGS[0], "content": shapes.payload(ctx, "c03", ln, z), "declared": ln, "enc": enc}]
